@@ -157,9 +157,110 @@ def run_eq(c):
     return ck.result()
 
 
+# ------------------------------------------------------------------------------------------- polygons on a full query grid
+def run_polygrid(c):
+    """Polygon built from vertices with last coordinate 1 vs the same polygon with an independent factor per vertex:
+    contains on the whole (half-)lattice grid of the enlarged bounding box, intersect with lines through grid points,
+    area and == must agree (measure-zero positions such as rays through vertices are only reached this way)"""
+    from . import c16
+
+    base = c16.polygon2(c)
+    n = len(base)
+    emb = c16.embed(c, base)
+    xs = [p[0] for p in base]
+    ys = [p[1] for p in base]
+    gx = [x / 2 for x in range(int(2 * min(xs)) - 2, int(2 * max(xs)) + 3)]
+    gy = [y / 2 for y in range(int(2 * min(ys)) - 2, int(2 * max(ys)) + 3)]
+
+    def h3(p2):
+        if emb is None:
+            return np.array([float(p2[0]), float(p2[1]), 1.0])
+        o, u, w = emb
+        return np.append(o + float(p2[0]) * u + float(p2[1]) * w, 1.0)
+
+    V = np.array([h3(p) for p in base])
+    fac = np.array([mvalue(c["factors"][i % len(c["factors"])]) for i in range(n)])
+    W = V * fac[:, None]
+    Q = np.array([h3((x, y)) for x in gx for y in gy])
+    kind = c["kind"]
+    cls = {"triangle": G.Triangle, "rectangle": G.Rectangle}.get(kind, G.Polygon)
+    dim = 2 if emb is None else 3
+    site = f"polygrid:{kind}{dim}"
+    try:
+        A = cls(*[Point(v) for v in V])
+        B = cls(*[Point(v) for v in W])
+    except Exception as e:  # noqa: BLE001
+        return [exc_fail(e, site + ":construct")]
+    ck = Checker()
+    ra, f = call(site, A.contains, G.PointCollection(Q))
+    rb, g = call(site + ":rescaled", B.contains, G.PointCollection(Q))
+    if f:
+        raise Skip("fails on the original polygon")
+    if g:
+        return [g]
+    bad = np.flatnonzero(np.asarray(ra) != np.asarray(rb))
+    ck.check(len(bad) == 0, site + ":contains(collection)", {"n_wrong": int(len(bad)), "first": Q[bad[0]].tolist() if len(bad) else None, "factors": fac.tolist()})
+    for i in range(0, len(Q), max(1, len(Q) // 25)):
+        r1, f = call(site, A.contains, Point(Q[i]))
+        r2, g = call(site + ":rescaled", B.contains, Point(Q[i] * -2.0))
+        if f:
+            continue
+        if g:
+            ck.add(g)
+            break
+        if not ck.check(bool(r1) == bool(r2), site + ":contains(point)", Q[i].tolist()):
+            break
+    for attr in ("area",):
+        a1, f = call(site, lambda: getattr(A, attr))
+        a2, g = call(site + ":rescaled", lambda: getattr(B, attr))
+        if f is None:
+            if g:
+                ck.add(g)
+            else:
+                ck.check(bool(np.allclose(a1, a2, rtol=1e-9, atol=1e-9)), site + ":" + attr, (float(a1), float(a2)))
+    e1, f = call(site, lambda: A == B)
+    if f is None:
+        ck.check(bool(e1), site + ":==")
+    # lines through pairs of grid points (they pass through vertices / along edges regularly)
+    if dim == 2:
+        step = max(1, len(Q) // 12)
+        for i in range(0, len(Q) - step, step):
+            p, q = Q[i], Q[(i * 7 + 3) % len(Q)]
+            if np.allclose(p, q):
+                continue
+            L = G.Line(Point(p), Point(q))
+            r1, f = call(site + ":intersect", A.intersect, L)
+            r2, g = call(site + ":intersect:rescaled", B.intersect, L)
+            if f:
+                continue
+            if g:
+                ck.add(g)
+                break
+            ok, dt = O.same(r1, r2, "multiset", 1e-6)
+            if not ck.check(ok, site + ":intersect(line)", dt):
+                break
+    return ck.result()
+
+
+def polygrid_strategy(tier):
+    from . import c16
+
+    @st.composite
+    def s(draw):
+        c = draw(c16.poly_case(tier))
+        c["factors"] = [draw(mscale()) for _ in range(7)]
+        if c["kind"] == "collection":
+            c["kind"] = "polygon"
+        return c
+
+    return s()
+
+
 LAWS = [
     Law("rescale_argument", lambda tier: case(tier), run, nontrivial, labels, {"quick": 6000, "thorough": 150000},
         "op(args) vs op(args with one argument's homogeneous representative rescaled)", shard=400, mandatory=("negative-factor", "complex-factor")),
+    Law("polygon_grid", polygrid_strategy, run_polygrid, lambda c: any(f[0] < 0 for f in c["factors"]), lambda c: [c["kind"], "embedded3d" if c["embed"] else "planar"],
+        {"quick": 400, "thorough": 8000}, "polygon with rescaled vertices vs the same polygon: contains on the full query grid, area, ==, intersect", shard=50),
     Law("equality", lambda tier: eq_case(tier), run_eq, lambda c: True, lambda c: [f"{c['kind']}{c['d']}"], {"quick": 1500, "thorough": 30000},
         "== holds for every non-zero multiple, is reflexive and symmetric, and is false for objects that are clearly not multiples", shard=400),
 ]
